@@ -31,6 +31,7 @@ extern void *mpt_qpop(MPT_STRUCT(queue) *queue, size_t len, void *data)
 			errno = ERANGE;
 			return 0;
 		}
+		base += low - len;
 		if (data) {
 			memcpy(data, base, len);
 		}
@@ -41,14 +42,13 @@ extern void *mpt_qpop(MPT_STRUCT(queue) *queue, size_t len, void *data)
 			errno = EINVAL;
 			return 0;
 		}
-		len -= high;
-		if (len > low) {
+		if ((len - high) > low) {
 			errno = ERANGE;
 			return 0;
 		}
-		base = ((uint8_t *) queue->base) + queue->max - len;
-		memcpy(data, base, high);
-		memcpy(((uint8_t *) data) + len, queue->base, high);
+		base = ((uint8_t *) queue->base) + queue->max - (len - high);
+		memcpy(data, base, len - high);
+		memcpy(((uint8_t *) data) + (len - high), queue->base, high);
 		
 		base = data;
 	}
